@@ -18,6 +18,11 @@ One clause only is decided; everything else in C11 quantifies over run-time mixi
               giving side subtracts tot1, the receiving side adds tot2).  The two sides select the entry of the totals map by
               the same whole-name match (prefix compare plus equal lengths); if one side matches differently, what leaves "N"
               in one cell can arrive in "Na" in the other
+  C11.maxmix    "bounded mixing": init_mix splits a time step into l_nmix mixing runs so that no cell's mixing fractions exceed the
+              allowed maximum; l_nmix comes from maxmix, the maximum over the cells of m[i] + m1[i] taken AFTER the boundary cells'
+              factors have been replaced.  Every update of that maximum reads the two factors of the SAME cell, and in a
+              boundary block it reads the cell whose factors that block has just assigned; otherwise the boundary cell can get
+              a negative self-fraction (concentrations leave the initial/boundary range)
 Not decided: conservation of the column inventory, mixing-factor arithmetic, convexity (bounded mixing), stagnant zones,
 multicomponent diffusion, boundary conditions.
 """
@@ -201,8 +206,58 @@ def transfer_rule(P, R):
         R.violation("C11.transfer", "multi_D:tot1~tot2", "expected giver -= tot1 and receiver += tot2, found %s / %s" % signs, file=f["file"], line=b[0][1], function=f["q"])
 
 
+def maxmix_rule(P, R):
+    R.rule("C11.maxmix", "init_mix: every update of the maximum mixing fraction reads m and m1 of the same cell, the cell whose factors the block assigns", minimum=4)
+    f = P.one("Phreeqc::init_mix")
+    where = dict(file=f["file"], function=f["q"])
+    n = 0
+
+    def idx_of(nd, arr):
+        nd = T.strip_casts(nd)
+        if nd[0] == "Index" and T.text(nd[2]).split(".")[-1] == arr:
+            return T.text(nd[3]).replace(" ", "")
+        return None
+    for blk in T.walk(f["body"]):
+        if blk[0] != "Compound":
+            continue
+        stm = [s_ for s_ in blk[2] if T.is_node(s_)]
+        for st in stm:
+            if not (st[0] == "Bin" and st[2] == "=" and T.text(st[3]) == "mf12"):
+                continue
+            r = T.strip_casts(st[4])
+            if not (r[0] == "Bin" and r[2] == "+"):
+                continue
+            a, b = idx_of(r[3], "m"), idx_of(r[4], "m1")
+            if a is None or b is None:
+                a, b = idx_of(r[4], "m"), idx_of(r[3], "m1")
+            if a is None or b is None:
+                continue
+            n += 1
+            inst = "mf12@%d" % st[1]
+            assigned = set()
+            for s2 in stm:
+                if s2 is st:
+                    break
+                for w in T.walk(s2):
+                    if w[0] == "Bin" and w[2] in T.ASSIGN_OPS:
+                        for arr in ("m", "m1"):
+                            k = idx_of(w[3], arr)
+                            if k is not None:
+                                assigned.add(k)
+            if a != b:
+                R.violation("C11.maxmix", inst, "the maximum mixing fraction is updated from m[%s] + m1[%s]: the factors of two different cells" % (a, b), line=st[1], **where)
+            elif assigned and a not in assigned:
+                R.violation("C11.maxmix", inst, "this block assigns the mixing factors of cell %s but updates the maximum from cell %s: the boundary cell's own factors no longer limit the number "
+                            "of mixing runs and its self-fraction can become negative" % (", ".join(sorted(assigned)), a), line=st[1], **where)
+            else:
+                R.ok("C11.maxmix", inst, "m[%s] + m1[%s]" % (a, b))
+    if n < 4:
+        R.anchor_missing("C11.maxmix", "init_mix: only %d updates of the maximum mixing fraction found" % n)
+
+
 def run(P, R, tier):
     mixwater_rule(P, R)
+    maxmix_rule(P, R)
     transfer_rule(P, R)
     R.undecided += ["conservation of the column inventory over shifts (mixing-factor arithmetic)", "bounded mixing / convexity",
                     "stagnant zones, multicomponent diffusion, boundary conditions, reactive solids"]
